@@ -2,6 +2,7 @@
 package main
 
 import (
+	"math"
 	"context"
 	"fmt"
 	"regexp"
@@ -135,9 +136,26 @@ func candidates(rs *gj5s.RuleSpec) []cand {
 			}
 		}
 		unsigned := rs.Kind == gj5s.TUint32 || rs.Kind == gj5s.TUint64
+		// the ends of the format's own range, and a few ordinary values: a bound outside the range
+		// must still mean what it says
+		lo, hi := int64(math.MinInt64), int64(math.MaxInt64)
+		switch rs.Kind {
+		case gj5s.TInt32:
+			lo, hi = math.MinInt32, math.MaxInt32
+		case gj5s.TUint32:
+			lo, hi = 0, math.MaxUint32
+		case gj5s.TUint64:
+			lo = 0
+		}
+		for _, v := range []int64{lo, hi, 5, 6, 100} {
+			vals[v] = true
+		}
 		for v := range vals {
 			if unsigned && v < 0 {
 				continue
+			}
+			if v < lo || v > hi {
+				continue // not a value of the field
 			}
 			out = append(out, cand{name: fmt.Sprint(v), set: setScalar(rs.Kind, v), ok: intOK(rs, v), zero: v == 0})
 		}
